@@ -339,3 +339,183 @@ def c10_programs(seed, tier):
     out.append(prog("empty_guid", [new(""), pc(p0, 3), FIN]))
     out.append(prog("empty_pc_guid", [new(), pc(p0, 3, guid=""), FIN]))
     return out
+
+
+# ------------------------------------------------------------------------------------------ C04 / C14
+SPECIAL_STRINGS = ["", " ", " \t ", "plain", "<", "&", "a<b&c>d", "]]>", "x]]>y]]>z", "\"'", "a\tb\nc", "\U0001F600\U0001D518", "<![CDATA[x]]>",
+                   " pad ", "&amp;&lt;", "</name>", "%s{}\\", "äöü€", "L" * 5000]
+SPECIAL_FLOATS = [0.0, -0.0, 5e-324, 2.2250738585072014e-308, 1.7976931348623157e308, -1.7976931348623157e308, float("inf"), float("-inf"),
+                  float("nan"), 0.1, 1e300, -123456.789, 1e-5, 1e16, 123456789012345680.0, 9.999999999999999e22]
+PC_STR = ["name", "description", "sensor_vendor", "sensor_model", "sensor_serial", "sensor_hw", "sensor_sw", "sensor_fw"]
+PC_FLT = ["temperature", "humidity", "pressure"]
+IM_STR = ["name", "description", "pc_guid", "sensor_vendor", "sensor_model", "sensor_serial"]
+
+
+def dt(t, a=True):
+    return {"t": f64(t), "a": a}
+
+
+def tf(q=(1.0, 0.0, 0.0, 0.0), t=(0.0, 0.0, 0.0)):
+    return {"q": [f64(x) for x in q], "t": [f64(x) for x in t]}
+
+
+def setter(f, v):
+    return {"f": f, "v": v}
+
+
+def pc_setters_all(tag, sval=None, fval=None):
+    s = [setter(f, (f"{tag}-{f}" if sval is None else sval)) for f in PC_STR]
+    s += [setter(f, f64((i + 1) * 1.25) if fval is None else f64(fval)) for i, f in enumerate(PC_FLT)]
+    fv = 2.5 if fval is None else fval
+    s += [setter("transform", tf((0.5, -0.5, 0.5, fv), (fv, 2.0, -3.0))), setter("acq_start", dt(fv, True)), setter("acq_end", dt(1e9 + 0.5, False)),
+          setter("original_guids", [f"{tag}-og1", "og2" if sval is None else sval])]
+    return s
+
+
+def im_setters_all(tag, sval=None, fval=None):
+    s = [setter(f, (f"{tag}-{f}" if sval is None else sval)) for f in IM_STR]
+    fv = 7.5 if fval is None else fval
+    s += [setter("transform", tf((0.0, 1.0, 0.0, 0.0), (fv, -fv, 0.0))), setter("acquisition", dt(fv, False))]
+    return s
+
+
+def all_reps(fv=0.5, mask=True):
+    m = 17 if mask else None
+    return [
+        [rep("visual", 30, 1, "jpeg", mask=m, width=640, height=480)],
+        [rep("pinhole", 31, 2, "png", mask=m, width=1, height=4294967295, focal=fv, pw=1e-6, ph=2e-6, px=320.5, py=fv)],
+        [rep("spherical", 32, 3, "jpeg", mask=m, width=2048, height=1024, pw=fv, ph=0.003)],
+        [rep("cylindrical", 33, 4, "png", mask=m, width=100, height=50, radius=fv, py=25.0, pw=0.01, ph=fv)],
+        [rep("visual", 34, 5, "png", mask=None, width=8, height=8), rep("spherical", 35, 6, "png", mask=m, width=16, height=8, pw=0.1, ph=0.2)],
+    ]
+
+
+def c04_programs(seed, tier):
+    p0 = small_protos()[0]
+    p6 = small_protos()[6]
+    out = []
+    base_read = None
+    # everything set to distinct values (swaps of fields or tags become visible), several objects interleaved
+    steps = [new("file-guid-1"), {"op": "coord", "v": "coord-meta"}, {"op": "creation", "v": dt(1.25e9, True)},
+             {"op": "ext", "ns": "ext1", "url": "http://example.com/one"}, {"op": "ext", "ns": "ext2", "url": "http://example.com/two"},
+             pc(p0, 3, guid="pcA", setters=pc_setters_all("A")),
+             image(all_reps()[1], guid="imA", setters=im_setters_all("IA")),
+             pc(p6, 2, guid="pcB", setters=pc_setters_all("B")),
+             image(all_reps()[4], guid="imB", setters=im_setters_all("IB")), FIN]
+    out.append(prog("all_set", steps))
+    out.append(prog("none_set", [new("g"), pc(p0, 1, guid="pcA"), image([rep("visual", 5)], guid="imA"), FIN]))
+    # each optional field present alone
+    for f in PC_STR:
+        out.append(prog(f"only_pc_{f}", [new("g"), pc(p0, 1, setters=[setter(f, f"only-{f}")]), FIN]))
+    for f in PC_FLT:
+        out.append(prog(f"only_pc_{f}", [new("g"), pc(p0, 1, setters=[setter(f, f64(3.5))]), FIN]))
+    for s in (setter("transform", tf((0.0, 0.0, 0.0, 1.0), (1.0, 2.0, 3.0))), setter("acq_start", dt(5.0)), setter("acq_end", dt(6.0, False)),
+              setter("original_guids", ["a", "b", "c"]), setter("original_guids", [])):
+        out.append(prog(f"only_pc_{s['f']}_{len(out)}", [new("g"), pc(p0, 1, setters=[s]), FIN]))
+    for f in IM_STR:
+        out.append(prog(f"only_im_{f}", [new("g"), image([rep("visual", 5)], setters=[setter(f, f"only-{f}")]), FIN]))
+    out.append(prog("only_coord", [new("g"), {"op": "coord", "v": "c"}, FIN]))
+    out.append(prog("only_creation", [new("g"), {"op": "creation", "v": dt(0.0, False)}, FIN]))
+    # setters called twice and reset
+    out.append(prog("set_twice_reset", [new("g"), {"op": "coord", "v": "first"}, {"op": "coord", "v": None}, {"op": "creation", "v": dt(1.0)}, {"op": "creation", "v": None},
+                                        pc(p0, 1, setters=[setter("name", "a"), setter("name", "b"), setter("description", "d"), setter("description", None),
+                                                           setter("temperature", f64(1.0)), setter("temperature", f64(2.0)), setter("humidity", f64(1.0)), setter("humidity", None),
+                                                           setter("transform", tf()), setter("transform", None), setter("acq_start", dt(1.0)), setter("acq_start", None)]),
+                                        image([rep("visual", 5)], setters=[setter("name", "x"), setter("name", "y")]), FIN]))
+    # strings over the XML character domain, in every string position at once
+    strings = SPECIAL_STRINGS if tier == "thorough" else SPECIAL_STRINGS
+    for i, s in enumerate(strings):
+        steps = [new(s if s.strip() else "g" + s), {"op": "coord", "v": s},
+                 pc(p0, 1, guid=s, setters=pc_setters_all("S", sval=s)),
+                 image([rep("visual", 5)], guid=s, setters=[setter(f, s) for f in IM_STR]), FIN]
+        out.append(prog(f"string{i}", steps))
+    # floats in every float position at once
+    for i, x in enumerate(SPECIAL_FLOATS):
+        steps = [new("g"), {"op": "creation", "v": dt(x, i % 2 == 0)},
+                 pc(p0, 1, setters=pc_setters_all("F", fval=x)),
+                 image(all_reps(fv=x)[1 + i % 3], setters=im_setters_all("F", fval=x)), FIN]
+        out.append(prog(f"float{i}", steps))
+    # all four representations with and without mask
+    for mi, mask in enumerate((True, False)):
+        for ri, reps in enumerate(all_reps(mask=mask)):
+            out.append(prog(f"rep{ri}_{mi}", [new("g"), image(reps, guid=f"im{ri}"), FIN]))
+    # extension urls
+    for i, url in enumerate(["http://example.com/a?b=1&c=2", "urn:x<y", "quote\"inside", "plain", "http://ä.example/\U0001F600"]):
+        out.append(prog(f"exturl{i}", [new("g"), {"op": "ext", "ns": "ext", "url": url}, pc(p0 + [rec("foo", "int", 0, 9, ns="ext")], 2), FIN]))
+    # limit overrides (complete ones are stored as given), resets
+    lim_cases = [
+        ("int", {"min": v_int(-7), "max": v_int(I64MAX)}), ("f32", {"min": v_f32(0.25), "max": v_f32(3.4028234663852886e38)}),
+        ("f64", {"min": v_f64(-1e300), "max": v_f64(1e300)}), ("sint", {"min": v_sint(I64MIN), "max": v_sint(5)}),
+        ("mixed", {"min": v_int(0), "max": v_f64(1.0)}),
+    ]
+    for name, l in lim_cases:
+        out.append(prog(f"ilim_{name}", [new("g"), pc(p0, 2, setters=[setter("intensity_limits", l)]), FIN]))
+    out.append(prog("ilim_reset", [new("g"), pc(p0, 2, setters=[setter("intensity_limits", None)]), FIN]))
+    out.append(prog("ilim_default_float_undeclared", [new("g"), pc(xyz() + [rec("intensity", "single")], 2), FIN]))
+    out.append(prog("ilim_default_float_declared", [new("g"), pc(xyz() + [rec("intensity", "single", f32(0.0), f32(1.0))], 2), FIN]))
+    out.append(prog("ilim_default_sint", [new("g"), pc(xyz() + [rec("intensity", "sint", -5, 500, 0.001, 2.0)], 2), FIN]))
+    cl = {"rmin": v_int(0), "rmax": v_int(255), "gmin": v_int(1), "gmax": v_int(254), "bmin": v_int(2), "bmax": v_int(253)}
+    out.append(prog("clim_override", [new("g"), pc(p6, 2, setters=[setter("color_limits", cl)]), FIN]))
+    out.append(prog("clim_reset", [new("g"), pc(p6, 2, setters=[setter("color_limits", None)]), FIN]))
+    out.append(prog("clim_default", [new("g"), pc(p6, 2), FIN]))
+    out.append(prog("clim_default_float", [new("g"), pc(xyz() + [rec(n, "single", f32(0.0), f32(1.0)) for n in ("colorRed", "colorGreen", "colorBlue")], 2), FIN]))
+    return out
+
+
+def c14_programs(seed, tier):
+    r = random.Random(seed)
+    out = []
+    coord_types = [("single", lambda n: rec(n, "single")), ("double", lambda n: rec(n, "double")),
+                   ("sint", lambda n: rec(n, "sint", -(1 << 20), 1 << 20, 0.0009765625, -8.0)),
+                   ("sint_neg", lambda n: rec(n, "sint", -1000, 1000, -0.25, 0.5))]
+    C = ["cartesianX", "cartesianY", "cartesianZ"]
+    Sn = ["sphericalRange", "sphericalAzimuth", "sphericalElevation"]
+
+    def value_for(rc, x):
+        t = rc["t"]
+        if t == "single":
+            return v_f32(x)
+        if t == "double":
+            return v_f64(x)
+        if t == "sint":
+            return v_sint(int(x))
+        return v_int(int(x))
+
+    def seqs(n):
+        base = {
+            "empty": [], "single": [3.0], "constant": [2.5] * 4,
+            "up": [float(i) for i in range(-3, 4)], "down": [float(i) for i in range(3, -4, -1)],
+            "mixed": [0.0, -0.0, 5.0, -7.5, 0.25, -0.25, 100.0, -100.0, 3.0],
+            "extremes": [1e30, -1e30, 1e-30, -1e-30, 0.0],
+        }
+        return base
+
+    idx = [rec("rowIndex", "int", -5, 1000), rec("columnIndex", "int", 0, 65535), rec("returnIndex", "int", 0, 7), rec("returnCount", "int", 0, 7)]
+    groups = [
+        ("cart", C, []), ("sph", Sn, []), ("both", C + Sn, []), ("cart_idx", C, idx), ("cart_rowonly", C, idx[:1]),
+        ("cart_return", C, idx[2:]), ("sph_col", Sn, idx[1:2]),
+    ]
+    for gname, names, extra in groups:
+        for tname, mk in coord_types:
+            if "sph" in gname and tname.startswith("sint") and False:
+                continue
+            proto = [mk(n) for n in names] + extra + [rec("intensity", "int", 0, 9)]
+            for sname, seq in seqs(0).items():
+                if tier == "quick" and (tname == "sint_neg" and sname not in ("mixed", "up")):
+                    continue
+                pts = []
+                for k, x in enumerate(seq):
+                    p = []
+                    for ci, rc in enumerate(proto):
+                        if rc["name"] in names:
+                            # distinct extremes per axis at distinct indices
+                            y = seq[(k + ci) % len(seq)] * (1 + ci)
+                            if rc["t"] == "sint":
+                                y = max(min(int(y), rc["max"]), rc["min"])
+                            p.append(value_for(rc, y))
+                        elif rc["t"] == "int":
+                            span = rc["max"] - rc["min"]
+                            p.append(v_int(rc["min"] + (k * 7 + ci * 3) % (span + 1)))
+                    pts.append(p)
+                out.append(prog(f"b_{gname}_{tname}_{sname}", [new("g"), pc(proto, pts=pts), FIN], reals=True))
+    return out
